@@ -149,7 +149,9 @@ impl SyncReadBuf {
                 }
 
                 let len = inner.buf_len();
-                let read_slice = inner.slice(len..);
+                // Never offer the stream more room than the limit leaves.
+                let end = inner.buf_capacity().min(self.max_buffer_size);
+                let read_slice = inner.slice(len..end);
                 stream.read(read_slice).await.into_inner()
             })
             .await?;
